@@ -551,6 +551,8 @@ def rule_checked_constructors(ctx, cfg='prod-all'):
         for bi, t in b.calls():
             cal0 = t.get('callee') or ''
             if cal0.endswith(('::is_torsion_free', '::is_on_curve', '::clear_cofactor')):
+                if bi in b.debug_assert_blocks():
+                    continue      # restated inside a debug assertion, not used in place of a checked constructor
                 subst.append('%s L%s: %s' % (p, t['line'], cal0))
     yield Ob('RF-D', 'crate#manual-subgroup-checks', not subst, 'no hand-rolled curve / subgroup test replaces the checked constructors', '', fact=subst[:6], expected='none')
 
